@@ -141,7 +141,7 @@ def build_graph(rng, root):
     feats = set()
     npk = rng.choice((1, 2, 3, 3, 4, 6))
     subdir = rng.random() < 0.4
-    lua_path_mode = rng.choice(('default', 'default', 'arg_rel', 'arg_abs', 'env'))
+    lua_path_mode = rng.choice(('default', 'default', 'arg_rel', 'arg_abs', 'env', 'arg_qdir'))
     pkgs = []
     for i in range(npk):
         k = Pkg()
@@ -178,7 +178,7 @@ def build_graph(rng, root):
 
     def req_name(j, from_dir):
         t = pkgs[j]
-        if lua_path_mode in ('arg_rel', 'arg_abs', 'env') and t.file_dir == 'lib':
+        if lua_path_mode in ('arg_rel', 'arg_abs', 'env', 'arg_qdir') and t.file_dir == 'lib':
             return t.base.encode()      # found through the load path
         if t.file_dir == from_dir:
             return t.base.encode()
@@ -206,6 +206,12 @@ def build_graph(rng, root):
             if nm is None:
                 continue
             deps.append((d, nm))
+        if not deps and rng.random() < 0.2:
+            # a package with nothing in it, or nothing left once its game loop is stripped: still a package of that name
+            kind_e = rng.choice(('empty_file', 'comments_only', 'game_loop_only'))
+            slots = {'empty_file': [], 'comments_only': [(b'-- nothing here yet\n--[[ todo ]]\n', True)],
+                     'game_loop_only': [(b'function _init()\n cls()\nend\n', 'gameloop'), (b'function _draw() end\n', 'gameloop')]}[kind_e]
+            feats.add('package_without_remaining_code:' + kind_e)
         for d, nm in deps:
             txt, form = require_piece(rng, nm, pkgs[d].opt)
             feats.add('require_form:' + form)
@@ -265,6 +271,10 @@ def build_graph(rng, root):
             if keep is True or not k.opt:
                 exp_other.extend(tk)
         rel = os.path.join(k.file_dir if lua_path_mode == 'default' or k.file_dir == '' else 'libs', k.base + '.lua')
+        if lua_path_mode == 'arg_qdir' and k.file_dir == 'lib':
+            # load path patterns with `?` in a directory component: libs/?/?.lua and libs/?/init.lua
+            rel = os.path.join('libs', k.base, rng.choice((k.base + '.lua', 'init.lua')))
+            feats.add('found_via_pattern_with_placeholder_in_directory')
         if lua_path_mode != 'default' and k.file_dir == 'lib':
             feats.add('found_via_load_path')
         elif k.file_dir == 'lib':
@@ -327,6 +337,9 @@ def build_graph(rng, root):
         argv += ['--lua-path', '?.lua;' + os.path.join(root, 'libs', '?.lua')]
     elif lua_path_mode == 'env':
         env['PICO8_LUA_PATH'] = '?;?.lua;' + os.path.join(root, 'libs', '?.lua')
+    elif lua_path_mode == 'arg_qdir':
+        # (relative patterns are taken relative to the requiring file, so packages that require each other need the absolute ones)
+        argv += ['--lua-path', '?;?.lua;libs/?/?.lua;' + os.path.join(root, 'libs', '?', 'init.lua') + ';' + os.path.join(root, 'libs', '?', '?.lua')]
     feats.add('lua_path:' + lua_path_mode)
     feats.add('packages_%d' % min(len(expected), 4))
     if any(k.opt for k in expected.values()):
@@ -607,7 +620,8 @@ def gates(m, tier):
               'require_form:stmt', 'require_form:assign', 'require_form:local', 'require_form:field', 'require_form:callarg',
               'require_form:chain', 'require_form:nestedfn', 'require_form:in_if', 'require_form:in_else', 'require_form:in_shortif',
               'require_form:in_loop', 'require_form:in_cond', 'error:missing', 'error:noargs', 'error:threeargs', 'error:nonstring',
-              'error:badoption', 'gameloop_with_comment_before_or_code_after', 'gameloop_name_as_last_component', 'dotted_gameloop_name', 'package_name_non_ascii', 'directory_named_like_package', 'one_file_two_names_opposite_options', 'main_starts_with_comment'):
+              'error:badoption', 'gameloop_with_comment_before_or_code_after', 'gameloop_name_as_last_component', 'dotted_gameloop_name', 'package_name_non_ascii', 'directory_named_like_package', 'found_via_pattern_with_placeholder_in_directory',
+              'package_without_remaining_code:empty_file', 'package_without_remaining_code:comments_only', 'package_without_remaining_code:game_loop_only', 'one_file_two_names_opposite_options', 'main_starts_with_comment'):
         if f.get(k, 0) < 2:
             missed.append('%s seen %d times' % (k, f.get(k, 0)))
     if mon.get('package_bodies_compared', 0) < 100:
